@@ -170,8 +170,7 @@ def normalise_augassign(tree):
                     isinstance(v.op, (ast.Add, ast.Sub, ast.Mult)) and \
                     isinstance(node.targets[0], (ast.Name, ast.Attribute)) \
                     and isinstance(v.left, (ast.Name, ast.Attribute)) and \
-                    ast.dump(_strip(node.targets[0])) == \
-                    ast.dump(_strip(v.left)) and not any(
+                    _strip(node.targets[0]) == _strip(v.left) and not any(
                         isinstance(x, (ast.List, ast.ListComp, ast.Dict,
                                        ast.Set))
                         for x in ast.walk(v.right)):
@@ -180,8 +179,8 @@ def normalise_augassign(tree):
             return node
 
     def _strip(e):
-        e2 = ast.parse(ast.unparse(e), mode='eval').body
-        return e2
+        import re
+        return re.sub(r'(Load|Store|Del)\(\)', '', ast.dump(e))
     T().visit(tree)
     ast.fix_missing_locations(tree)
     return tree
